@@ -458,4 +458,230 @@ Section Proofs.
     intros cl tail r cells Hs Hd Hm. destruct (snapshot_count _ _ _ Hs) as (cells' & Hd' & Hc).
     rewrite Hd in Hd'. inversion Hd'; subst. rewrite Hc, length_concat. now apply count_items_sum.
   Qed.
+  (* ---------- the shape invariant: every chunk of the list but the first and the last is full ---------- *)
+  Definition cell_at (s : store item) (i : nat) : cell item := nth i s [].
+  Definition lensof (s : store item) (ids : list nat) : list nat := map (fun i => length (cell_at s i)) ids.
+  Definition shape (cl : clist) : Prop := mid_full (lensof (cl_store cl) (cl_chunks cl)).
+
+  Lemma cell_at_get (s : store item) i : cell_at s i = match get s i with Ok c => c | Err _ => [] end.
+  Proof. unfold cell_at. revert i; induction s as [|c s IH]; intros [|i]; cbn; auto. Qed.
+
+  Lemma get_cell_at (s : store item) i c : get s i = Ok c -> cell_at s i = c.
+  Proof. intro H. now rewrite cell_at_get, H. Qed.
+
+  Lemma deref_all_cells (s : store item) ids cells : deref_all s ids = Ok cells -> cells = map (cell_at s) ids.
+  Proof.
+    revert cells; induction ids as [|i r IH]; intros cells H; cbn in H.
+    - now inversion H.
+    - bind_inv H. bind_inv H. inversion H; subst. cbn. f_equal; [symmetry; now apply get_cell_at | now apply IH].
+  Qed.
+
+  Lemma lens_of_cells (s : store item) ids cells : deref_all s ids = Ok cells -> map (@length item) cells = lensof s ids.
+  Proof. intro H. rewrite (deref_all_cells _ _ _ H). unfold lensof. now rewrite map_map. Qed.
+
+  Lemma cell_at_extends (s s' : store item) i : extends s s' -> i < length s -> cell_at s' i = cell_at s i.
+  Proof. intros [e ->] H. unfold cell_at. now apply app_nth1. Qed.
+
+  Lemma lensof_extends (s s' : store item) ids : extends s s' -> Forall (fun i => i < length s) ids ->
+    lensof s' ids = lensof s ids.
+  Proof.
+    intros He Hv. unfold lensof. apply map_ext_in. intros i Hi. rewrite Forall_forall in Hv.
+    now rewrite (cell_at_extends _ _ _ He (Hv i Hi)).
+  Qed.
+
+  Lemma cell_at_new (s : store item) c : cell_at (s ++ [c]) (length s) = c.
+  Proof. unfold cell_at. apply nth_middle. Qed.
+
+  Lemma cell_at_set (s s' : store item) lid c' i : set_nth s lid c' = Ok s' ->
+    cell_at s' i = if Nat.eqb i lid then c' else cell_at s i.
+  Proof.
+    intro H. destruct (Nat.eqb_spec i lid) as [->|Hne].
+    - apply get_cell_at. eapply get_set_same; eauto.
+    - rewrite !cell_at_get. now rewrite (get_set_other _ _ _ _ _ H Hne).
+  Qed.
+
+  Lemma lensof_app (s : store item) a b : lensof s (a ++ b) = lensof s a ++ lensof s b.
+  Proof. apply map_app. Qed.
+
+  Lemma mid_full_snoc l a : mid_full (l ++ [a]) <-> Forall (fun n => n = chunk_size) (tl l).
+  Proof.
+    destruct l as [|f m]; cbn [app mid_full tl].
+    - cbn. split; constructor.
+    - now rewrite removelast_last.
+  Qed.
+
+  Lemma mid_full_tl x l : mid_full (x :: l) -> mid_full l.
+  Proof.
+    cbn [mid_full]. destruct l as [|y rest]; [constructor|]. cbn [mid_full].
+    destruct rest as [|z rest']; [constructor|]. intro H.
+    change (removelast (y :: z :: rest')) with (y :: removelast (z :: rest')) in H. now inversion H.
+  Qed.
+
+  Lemma mid_full_suffix a b : mid_full (a ++ b) -> mid_full b.
+  Proof. induction a as [|x a IH]; cbn [app]; [auto|]. intro H. apply IH. now apply mid_full_tl in H. Qed.
+
+  Lemma last_opt_split (l : list nat) x : last_opt l = Some x -> exists front, l = front ++ [x].
+  Proof.
+    rewrite last_opt_rev. destruct (rev l) as [|y rf] eqn:Hr; [discriminate|]. intro H; inversion H; subst.
+    exists (rev rf). now apply rev_cons_last.
+  Qed.
+
+  Lemma last_opt_none (l : list nat) : last_opt l = None -> l = [].
+  Proof. destruct l; [reflexivity | discriminate]. Qed.
+
+  Lemma push_gen_shape cl x cl' : inv cl -> shape cl -> push_gen cl x = Ok cl' -> shape cl'.
+  Proof.
+    intros [Hv Hnd] Hs H. unfold push_gen in H. unfold shape in *.
+    set (add := fun c : cell item => match x with Some v => c ++ [v] | None => c end) in *.
+    destruct (last_opt (cl_chunks cl)) as [lid|] eqn:Hlast.
+    - destruct (last_opt_split _ _ Hlast) as [front Hfront].
+      bind_inv H. rewrite Hfront in *.
+      apply Forall_app in Hv as [Hvf Hvl]. inversion Hvl as [|? ? Hlid _]; subst.
+      rewrite lensof_app in Hs. cbn [lensof map] in Hs. rewrite (get_cell_at _ _ _ Hget) in Hs.
+      destruct (Nat.eqb (length a) chunk_size) eqn:Hfull.
+      + (* a new chunk behind a full one *)
+        cbn in H. inversion H; subst; clear H. cbn [cl_store cl_chunks].
+        apply Nat.eqb_eq in Hfull. rewrite Hfull in Hs.
+        rewrite !lensof_app. cbn [lensof map]. rewrite cell_at_new.
+        rewrite (lensof_extends (cl_store cl) _ front) by (auto; eexists; reflexivity).
+        rewrite (cell_at_extends (cl_store cl)) by (auto; eexists; reflexivity).
+        rewrite (get_cell_at _ _ _ Hget), Hfull.
+        apply mid_full_snoc. apply mid_full_snoc in Hs.
+        destruct front as [|f m]; cbn [app tl lensof map] in *; [constructor|].
+        apply Forall_app. split; [exact Hs | repeat constructor].
+      + (* one more item in the last chunk *)
+        bind_inv H. inversion H; subst; clear H. cbn [cl_store cl_chunks].
+        rewrite lensof_app. cbn [lensof map].
+        assert (Hfr : lensof a0 front = lensof (cl_store cl) front).
+        { unfold lensof. apply map_ext_in. intros i Hi. rewrite (cell_at_set _ _ _ _ i Hget0).
+          destruct (Nat.eqb_spec i lid) as [->|]; [|reflexivity].
+          exfalso. apply NoDup_remove_2 in Hnd. apply Hnd. rewrite app_nil_r. exact Hi. }
+        rewrite Hfr. apply mid_full_snoc. now apply mid_full_snoc in Hs.
+    - apply last_opt_none in Hlast. cbn in H. inversion H; subst; clear H. rewrite Hlast. cbn. constructor.
+  Qed.
+
+  (* the trim loop of Snapshot(tail), run on the chunks kept by the first loop, can only replace the LAST element of
+     the reversed list, i.e. the FIRST kept chunk *)
+  Lemma num_keep_0 l : num_keep 0 l = 0.
+  Proof. destruct l; reflexivity. Qed.
+
+  Lemma trim_only_last rids : forall (s : store item) left s' rids' ret,
+    trim_rev s left (firstn (num_keep left (lensof s rids)) rids) = Ok (s', rids', ret) ->
+    (s' = s /\ rids' = firstn (num_keep left (lensof s rids)) rids) \/
+    (exists front oldid c', firstn (num_keep left (lensof s rids)) rids = front ++ [oldid] /\
+                            rids' = front ++ [length s] /\ s' = s ++ [c']).
+  Proof.
+    induction rids as [|id r IH]; intros s left s' rids' ret H.
+    - destruct left; cbn in H; inversion H; subst; now left.
+    - destruct left as [|l].
+      + rewrite num_keep_0 in *. cbn in H. inversion H; subst. now left.
+      + cbn [lensof map num_keep firstn] in *. cbn [trim_rev] in H. bind_inv H.
+        rewrite (get_cell_at _ _ _ Hget) in *.
+        destruct (Nat.ltb (S l) (length a)) eqn:Hlt.
+        * apply Nat.ltb_lt in Hlt. replace (S l - length a) with 0 in * by lia.
+          rewrite num_keep_0 in *. cbn [firstn] in *. unfold alloc in H. inversion H; subst. right.
+          exists [], id, (skipn (length a - S l) a). auto.
+        * bind_inv H. destruct a0 as [[s1 r1] ret1]. inversion H; subst; clear H.
+          destruct (IH _ _ _ _ _ Hget0) as [[-> ->]|(front & oldid & c' & Hf & -> & ->)]; [now left|].
+          right. exists (id :: front), oldid, c'. unfold lensof in *. rewrite Hf. auto.
+  Qed.
+
+  Lemma snap_trim_shape cl tail cl1 changed retired : inv cl -> shape cl ->
+    snap_trim cl tail = Ok (cl1, changed, retired) -> shape cl1.
+  Proof.
+    intros [Hv Hnd] Hs H. unfold snap_trim in H. bind_inv H. rename a into cells.
+    destruct (Nat.ltb 0 tail && Nat.ltb tail (count_items (map (length (A:=item)) cells)))%bool;
+      [|inversion H; subst; exact Hs].
+    bind_inv H. destruct a as [[s' rkept] ret]. inversion H; subst; clear H.
+    rewrite (lens_of_cells _ _ _ Hget) in Hget0.
+    assert (Hrl : rev (lensof (cl_store cl) (cl_chunks cl)) = lensof (cl_store cl) (rev (cl_chunks cl)))
+      by (unfold lensof; now rewrite map_rev).
+    rewrite Hrl, <- firstn_rev in Hget0.
+    set (k := num_keep tail (lensof (cl_store cl) (rev (cl_chunks cl)))) in *.
+    (* the kept chunks are a suffix of the list *)
+    assert (Hsuf : cl_chunks cl = rev (skipn k (rev (cl_chunks cl))) ++ rev (firstn k (rev (cl_chunks cl)))).
+    { rewrite <- rev_app_distr, firstn_skipn, rev_involutive. reflexivity. }
+    unfold shape in *. cbn [cl_store cl_chunks].
+    rewrite Hsuf, lensof_app in Hs. apply mid_full_suffix in Hs. unfold k in *. clear k.
+    destruct (trim_only_last _ _ _ _ _ _ Hget0) as [[-> ->]|(front & oldid & c' & Hf & -> & ->)]; [exact Hs|].
+    rewrite Hf in Hs. rewrite !rev_app_distr in *. cbn [rev app] in *. cbn [lensof map] in *.
+    assert (Hfv : Forall (fun i => i < length (cl_store cl)) (rev front)).
+    { apply Forall_rev. rewrite Forall_forall in *. intros i Hi. apply Hv. rewrite Hsuf. apply in_or_app. right.
+      rewrite <- in_rev, Hf. apply in_or_app. now left. }
+    fold (lensof (cl_store cl ++ [c']) (rev front)). fold (lensof (cl_store cl) (rev front)) in Hs.
+    rewrite (lensof_extends (cl_store cl)) by (auto; eexists; reflexivity). exact Hs.
+  Qed.
+
+  Lemma snapshot_shape cl tail r : inv cl -> shape cl -> snapshot cl tail = Ok r ->
+    shape (sn_cl r) /\ lensof (cl_store (sn_cl r)) (sn_ids r) = lensof (cl_store (sn_cl r)) (cl_chunks (sn_cl r)).
+  Proof.
+    intros Hinv Hs H. unfold snapshot in H.
+    bind_inv H. destruct a as [[cl1 changed] retired].
+    pose proof (snap_trim_shape _ _ _ _ _ Hinv Hs Hget) as Hs1.
+    destruct (snap_trim_spec _ _ _ _ _ Hinv Hget) as ((Hv1 & Hnd1) & _ & _).
+    bind_inv H. destruct a as [s1 ids1]. bind_inv H. destruct a as [s2 ids2].
+    bind_inv H. inversion H; subst; clear H. cbn [fst snd] in *. cbn [sn_cl sn_ids cl_store cl_chunks].
+    pose proof (snap_dup_first_spec _ _ _ _ _ Hget0) as H1.
+    pose proof (snap_dup_last_spec _ _ _ _ Hget1) as H2.
+    assert (He12 : extends (cl_store cl1) s1).
+    { destruct H1 as [[-> _]|(f & rs & c & _ & _ & _ & -> & _)]; [apply extends_refl | exists [c]; reflexivity]. }
+    assert (He23 : extends s1 s2).
+    { destruct H2 as [(_ & _ & ->)|(l & rf & c & _ & _ & -> & _)]; [apply extends_refl | exists [c]; reflexivity]. }
+    pose proof (extends_len _ _ He12) as L2.
+    assert (Hv1' : Forall (fun i => i < length s1) (cl_chunks cl1)) by (eapply Forall_lt_mono; [|exact Hv1]; lia).
+    (* step 1: the copy of the first cell has the length of the original *)
+    assert (S1 : lensof s1 ids1 = lensof s1 (cl_chunks cl1) /\ Forall (fun i => i < length s1) ids1).
+    { destruct H1 as [[-> ->]|(first & rest & c & Hids & _ & Hc & -> & ->)]; [split; [reflexivity | exact Hv1]|].
+      rewrite Hids in *. cbn [lensof map]. rewrite cell_at_new. split.
+      - f_equal. inversion Hv1; subst.
+        rewrite (cell_at_extends (cl_store cl1)) by (auto; eexists; reflexivity). now rewrite (get_cell_at _ _ _ Hc).
+      - inversion Hv1'; subst. constructor; [rewrite app_length; cbn; lia | assumption]. }
+    destruct S1 as [S1 Hvi].
+    split.
+    - unfold shape in *. cbn [cl_store cl_chunks].
+      rewrite (lensof_extends (cl_store cl1)); [exact Hs1 | eapply extends_trans; eauto | exact Hv1].
+    - (* step 2: the copy of the last cell *)
+      assert (S2 : lensof s2 ids2 = lensof s2 ids1).
+      { destruct H2 as [(-> & -> & ->)|(lastid & rfront & c & Hrev & Hc & -> & ->)]; [reflexivity|].
+        rewrite (rev_cons_last _ _ _ Hrev) in *. rewrite !lensof_app. cbn [lensof map]. rewrite cell_at_new.
+        apply Forall_app in Hvi as [_ Hl]. inversion Hl; subst.
+        rewrite (cell_at_extends s1 (s1 ++ [c]) lastid) by (auto; eexists; reflexivity).
+        now rewrite (get_cell_at _ _ _ Hc). }
+      rewrite S2, (lensof_extends s1 s2 ids1 He23 Hvi), S1. symmetry. now apply lensof_extends.
+  Qed.
+
+  Lemma cstep1_shape cl o cl' : inv cl -> shape cl -> cstep1 cl o = Ok cl' -> shape cl'.
+  Proof.
+    intros Hinv Hs H. unfold cstep1, cstep in H. bind_inv H. inversion H; subst; clear H.
+    destruct o as [x| | |t].
+    - bind_inv Hget. inversion Hget; subst. eapply push_gen_shape; eauto.
+    - bind_inv Hget. inversion Hget; subst. eapply push_gen_shape; eauto.
+    - inversion Hget; subst. constructor.
+    - bind_inv Hget. inversion Hget; subst. cbn. now destruct (snapshot_shape _ _ _ Hinv Hs Hget0).
+  Qed.
+
+  (* THEOREM mid_full_reachable: the shape invariant holds for every reachable chunk list *)
+  Theorem shape_reachable_proof : forall (ops : list cop) (cl : clist), crun1 cl_empty ops = Ok cl -> inv cl /\ shape cl.
+  Proof.
+    assert (G : forall ops cl0 cl, inv cl0 -> shape cl0 -> crun1 cl0 ops = Ok cl -> inv cl /\ shape cl).
+    { induction ops as [|o r IH]; intros cl0 cl Hi Hs H; cbn in H.
+      - inversion H; subst. auto.
+      - bind_inv H. destruct (cstep1_spec _ _ _ Hi Hget) as (Hi' & _). eapply IH; eauto using cstep1_shape. }
+    intros ops cl H. apply (G ops cl_empty cl inv_empty); [constructor | exact H].
+  Qed.
+
+  (* THEOREM counts_consistent: the count reported with a snapshot of any reachable list, with or without --tail,
+     is the number of items the snapshot dereferences to *)
+  Theorem counts_consistent_proof : forall (before : list cop) tail (cl : clist) (r : snap_result item) cells,
+    crun1 cl_empty before = Ok cl -> snapshot cl tail = Ok r ->
+    deref_all (cl_store (sn_cl r)) (sn_ids r) = Ok cells ->
+    sn_count r = length (concat cells) /\ mid_full (map (@length item) cells).
+  Proof.
+    intros before tail cl r cells Hb Hsn Hd.
+    destruct (shape_reachable_proof _ _ Hb) as [Hi Hs].
+    destruct (snapshot_shape _ _ _ Hi Hs Hsn) as [Hs' Hl].
+    assert (Hm : mid_full (map (@length item) cells)).
+    { rewrite (lens_of_cells _ _ _ Hd), Hl. exact Hs'. }
+    split; [|exact Hm]. now apply (counts_consistent_partial_proof cl tail r cells).
+  Qed.
 End Proofs.
